@@ -250,6 +250,12 @@ class Ctx:
     def violation(self, summary, replay):
         self.violations.append((summary, replay))
 
+    def unshown(self, summary, replay):
+        """something the check relies on no longer holds and no failing input was found (or searched for)"""
+        if not hasattr(self, "unshown_list"):
+            self.unshown_list = []
+        self.unshown_list.append((summary, replay))
+
     def known_finding(self, fid, what):
         if (fid, what) not in self.known_hits:
             self.known_hits.append((fid, what))
@@ -367,6 +373,14 @@ def finish(ctx, rule, assumptions, checker_cmd=None):
         seen_paths.add(path)
         nviol += 1
         lines.append("VIOLATION property=%s replay=%s" % (ctx.pid, path))
+        sys.stderr.write("  -> %s\n" % summary)
+    for summary, replay in getattr(ctx, "unshown_list", [])[:10]:
+        path = write_replay(ctx, replay)
+        if path in seen_paths:
+            continue
+        seen_paths.add(path)
+        nviol += 1
+        lines.append("VIOLATION property=%s replay=%s no-failing-input-found" % (ctx.pid, path))
         sys.stderr.write("  -> %s\n" % summary)
     if ctx.proof_errors:
         # an obligation no longer checks; if the search found a failing input it is reported above,
